@@ -599,3 +599,9 @@ package cisco
 // remaining set in every round - a mark map that lives across rounds would have
 // to count referrers.
 //vc:freshinloop[C08,C01] (*State).deleteUnused isReferenced 5
+
+// C16: the anchor names collected from a map walk are handed on in one total
+// order (byte order of the names): two different names are never tied.
+//vc:func (*State).diffSomeAnchors$1
+//vc:  inline
+//vc:  ensures[C16] @namesInTotalOrder forall i int, j int :: { result[i], result[j] } 0 <= i && i < j && j < len(result) ==> result[i] <= result[j]
